@@ -202,7 +202,15 @@ class MultiDecoder(ContentDecoder):
         self._decoders = [_get_decoder(m.strip()) for m in modes.split(",")]
 
     def flush(self) -> bytes:
-        return self._decoders[0].flush()
+        # Flush every decoder, in the order decompress() applies them: what one
+        # coding's decoder still holds back is input for the next one, and an
+        # incomplete stream is only noticed by the flush of its own decoder.
+        data = b""
+        for d in reversed(self._decoders):
+            if data:
+                data = d.decompress(data)
+            data += d.flush()
+        return data
 
     def decompress(self, data: bytes) -> bytes:
         for d in reversed(self._decoders):
